@@ -122,7 +122,7 @@ def check(case, out):
     except Exception as e:
         out.notes.append("build:" + oracle.exc_man(e))
         return
-    if "SelfAdjoint" in TP.scalar_invalidated_annotations(A):
+    if "SelfAdjoint" in TP.scalar_invalidated_annotations(A) or TP.contaminated_by_scalar(tree):
         out.inconclusive += 1
         return
     alg = make_alg(case)
